@@ -29,7 +29,10 @@ Inductive case :=
       key is stored at most once, so Len does not depend on the eviction choices *)
 | CFillSeq (size : Z) (script : list fstep) (lens : list N)
   (** goroutines storing distinct keys while another samples Len: the largest sample *)
-| CLenMax (size : Z) (maxlen : N).
+| CLenMax (size : Z) (maxlen : N)
+  (** pkg/concurrent_lru.ShardedLRU (over ConcurrentLRU over lru.LRU), one goroutine: the result
+      of every operation and the (key, value) pairs handed to onEvict during it, in order *)
+| CLru (shards maxper : N) (ops : list lop) (obs : list (lres * list (key * val))).
 
 (** * agree: the model allows the observation *)
 Fixpoint index_of (k : key) (m : shard) : nat :=
@@ -118,6 +121,16 @@ Fixpoint fill_run (c : cache) (script : list fstep) : list N :=
   | FLen :: t => c_len c :: fill_run c t
   end.
 
+Definition kv_eqb (a b : key * val) : bool := (fst a =? fst b) && (snd a =? snd b).
+Definition lres_eqb (a b : lres * list (key * val)) : bool :=
+  match fst a, fst b with
+  | LRGet None, LRGet None => true
+  | LRGet (Some v), LRGet (Some v') => v =? v'
+  | LRUnit, LRUnit => true
+  | LRNum n, LRNum n' => n =? n'
+  | _, _ => false
+  end && list_eqb kv_eqb (snd a) (snd b).
+
 Definition agree (c : case) : bool :=
   match c with
   | CSeq size ops obs => seq_agree (new size) (at0 ops) obs
@@ -132,6 +145,8 @@ Definition agree (c : case) : bool :=
     c_len (fst (run hash (new size) ops)) =? lenobs
   | CFillSeq size script lens => list_eqb N.eqb (fill_run (new size) script) lens
   | CLenMax size maxlen => (Z.of_N maxlen <=? capacity size)%Z
+  | CLru shards maxper ops obs =>
+    list_eqb lres_eqb (snd (lrun_ops hash (slru_new shards maxper) ops)) obs
   end.
 
 (** * spec: the property's own oracle on the observation, without shards, capacity-driven
@@ -230,6 +245,34 @@ Fixpoint fill_spec (cap : Z) (live : N) (script : list fstep) (lens : list N) : 
   | _, _ => false
   end.
 
+(** LRU: a Get returns the value of the latest Add under that key (not deleted, cleaned,
+    flushed or reported evicted since), every pair handed to onEvict carries the current value
+    of its key, Len is within shards * maxper. The map [a] follows the OBSERVED evictions. *)
+Definition lset (k : key) (v : val) (a : list (key * val)) := (k, v) :: filter (fun kx => negb (fst kx =? k)) a.
+Fixpoint lru_spec (cap : N) (a : list (key * val)) (ops : list lop) (obs : list (lres * list (key * val))) : bool :=
+  match ops, obs with
+  | [], [] => true
+  | o :: ops', (r, ev) :: obs' =>
+    let ev_ok := forallb (fun kv => match lfind (fst kv) a with Some v => v =? snd kv | None => false end) ev in
+    let drop (b : list (key * val)) := filter (fun kx => negb (existsb (fun e => fst e =? fst kx) ev)) b in
+    ev_ok &&
+    match o, r with
+    | LAdd k v, LRUnit => negb (existsb (fun e => fst e =? k) ev) && lru_spec cap (lset k v (drop a)) ops' obs'
+    | LGet k, LRGet None => Nat.eqb (length ev) 0 && lru_spec cap a ops' obs'
+    | LGet k, LRGet (Some v) =>
+      Nat.eqb (length ev) 0 &&
+      match lfind k a with Some v' => (v' =? v) && lru_spec cap a ops' obs' | None => false end
+    | LDel k, LRUnit => forallb (fun e => fst e =? k) ev && lru_spec cap (filter (fun kx => negb (fst kx =? k)) a) ops' obs'
+    | LClean m r', LRNum n =>
+      (n =? N.of_nat (length ev)) && forallb (fun e => (fst e + snd e) mod m =? r') ev
+      && lru_spec cap (drop a) ops' obs'
+    | LLen, LRNum n => (n <=? cap) && (n <=? N.of_nat (length a)) && Nat.eqb (length ev) 0 && lru_spec cap a ops' obs'
+    | LFlush, LRUnit => Nat.eqb (length ev) 0 && lru_spec cap [] ops' obs'
+    | _, _ => false
+    end
+  | _, _ => false
+  end.
+
 Definition spec (c : case) : bool :=
   match c with
   | CSeq size ops obs => seq_spec (cap_spec size) [] (at0 ops) obs
@@ -238,6 +281,7 @@ Definition spec (c : case) : bool :=
   | CFill size n lenobs => (Z.of_N lenobs <=? cap_spec size)%Z && (lenobs <=? n)
   | CFillSeq size script lens => fill_spec (cap_spec size) 0 script lens
   | CLenMax size maxlen => (Z.of_N maxlen <=? cap_spec size)%Z
+  | CLru shards maxper ops obs => lru_spec (shards * maxper) [] ops obs
   end.
 
 (** * nontrivial: a size below the minimum or not a multiple of 64, an eviction, or (for
@@ -267,4 +311,10 @@ Definition nontrivial (c : case) : bool :=
   | CFillSeq size script _ =>
     existsb (fun x => match x with FFlush | FGc _ | FClose => true | _ => false end) script
   | CLenMax size _ => true
+  | CLru _ _ ops obs =>
+    (* an overwrite of a present key, or an eviction *)
+    existsb (fun x => negb (Nat.eqb (length (snd x)) 0)) obs
+    || existsb (fun o => match o with
+                         | LAdd k _ => Nat.ltb 1 (length (filter (fun o' => match o' with LAdd k' _ => k' =? k | _ => false end) ops))
+                         | _ => false end) ops
   end.
